@@ -2,7 +2,8 @@
 from props.common import *   # noqa
 
 MINE = {"bound-pid-rebound", "other-pid-references-changed", "result-class", "store-state:object-bytes-changed",
-        "model:bind", "store-state:pid-ref-garbled", "bookkeeping-not-exact"}
+        "model:bind", "store-state:pid-ref-garbled", "bookkeeping-not-exact", "store-state:unterminated-line",
+        "store-state:dup-line", "store-state:foreign-line"}
 
 
 def menu_fn(w):
